@@ -251,6 +251,8 @@ func run(raw json.RawMessage) (common.Case, error) {
 	var keptIdx []int
 	var oKept []string
 	var oLsets []string
+	var queried []int
+	var extraLsets []labels.Labels
 	obs := map[string]any{"ext_match": ok}
 	if ok {
 		// positions of the kept matchers: kept is an order-preserving sub-list of the request's matchers
@@ -307,6 +309,7 @@ func run(raw json.RawMessage) (common.Case, error) {
 		obs["kept_matchers"] = keptIdx
 		obs["reasons"] = reasons
 		obs["queried"] = gotIdx
+		queried, extraLsets = gotIdx, lsets
 		obs["label_sets"] = len(lsets)
 	}
 	c.Obs = obs
@@ -387,6 +390,67 @@ func run(raw json.RawMessage) (common.Case, error) {
 			}
 		}
 	}
+	// with a TSDB selector: the extra matchers generated for the returned label sets must not reject
+	// series of a queried store that carry one of its kept label sets (checked for label sets with
+	// the same names)
+	selCase := false
+	if relabelCfg != nil && ok {
+		homog := true
+		var first []string
+		firstSet := false
+		for i := range sts {
+			for _, e := range sts[i].exts {
+				var ns []string
+				e.Range(func(x labels.Label) { ns = append(ns, x.Name) })
+				if !firstSet {
+					first, firstSet = ns, true
+				} else if fmt.Sprint(ns) != fmt.Sprint(first) {
+					homog = false
+				}
+			}
+		}
+		if homog {
+			var extra []*labels.Matcher
+			for _, m := range store.MatchersForLabelSets(extraLsets) {
+				pm, err := storepb.MatcherToPromMatcher(m)
+				if err != nil {
+					return c, err
+				}
+				extra = append(extra, pm)
+			}
+			for _, i := range queried {
+				for j, se := range in.Stores[i].Series {
+					l := sts[i].sers[j]
+					carriesKept := false
+					for _, e := range sts[i].exts {
+						if _, keep := relabel.Process(e, relabelCfg...); keep && extends(l, e) {
+							carriesKept = true
+						}
+					}
+					valid := carriesKept && extends(l, sel)
+					inRange := false
+					for _, t := range se.Times {
+						valid = valid && in.Stores[i].Min <= t && t <= in.Stores[i].Max
+						inRange = inRange || (in.Mint <= t && t <= in.Maxt)
+					}
+					all := true
+					for _, m := range allMs {
+						all = all && m.Matches(l.Get(m.Name))
+					}
+					if !valid || !inRange || !all {
+						continue
+					}
+					selCase = true
+					for _, m := range extra {
+						if !m.Matches(l.Get(m.Name)) && c.GoPred == "" {
+							c.GoPred = fmt.Sprintf("store %d is queried and its series %s carries a label set kept by the TSDB selector, but the extra matcher %s generated for the kept label sets rejects it", i, l, m)
+							c.Sig = "selector-extra-matcher-skips-kept-data"
+						}
+					}
+				}
+			}
+		}
+	}
 	switch {
 	case !ok:
 		c.Class = "selector-labels-contradict"
@@ -396,7 +460,10 @@ func run(raw json.RawMessage) (common.Case, error) {
 		c.Class = "none-pruned"
 	}
 	// non-trivial: a store with series was pruned for time range / labels
-	c.Nontrivial = pruned > 0 && anySeries
+	if selCase {
+		c.Class += "/tsdb-selector"
+	}
+	c.Nontrivial = (pruned > 0 && anySeries) || selCase
 	return c, nil
 }
 
@@ -493,6 +560,53 @@ func genSelM(r *rand.Rand) input {
 	return in
 }
 
+// genSelectorCase: a TSDB selector on the shared external label "cluster": some stores have all of
+// their label sets kept, others only some of them; series carry kept or dropped sets.
+func genSelectorCase(r *rand.Rand) input {
+	var in input
+	vals := []string{"a", "b1", "b2", "c1", "c2", "d"}
+	keepN := 1 + r.Intn(len(vals)-1)
+	perm := r.Perm(len(vals))
+	var keep []string
+	for _, k := range perm[:keepN] {
+		keep = append(keep, vals[k])
+	}
+	in.Selector = &selectorIn{Source: []string{"cluster"}, Regex: strings.Join(keep, "|")}
+	if r.Intn(3) == 0 { // the same selection written as a drop rule
+		var drop []string
+		for _, k := range perm[keepN:] {
+			drop = append(drop, vals[k])
+		}
+		in.Selector = &selectorIn{Source: []string{"cluster"}, Regex: strings.Join(drop, "|"), Drop: true}
+	}
+	in.Ms = []matcherIn{common.Pick(r, matcherIn{Type: 2, Name: "__name__", Value: ".+"}, matcherIn{Type: 1, Name: "__name__", Value: ""}, matcherIn{Type: 0, Name: "__name__", Value: "up"})}
+	if r.Intn(3) == 0 {
+		in.Ms = append(in.Ms, matcherIn{Type: r.Intn(4), Name: "cluster", Value: common.Pick(r, "a", "b1", "b.", "c1|c2", "")})
+	}
+	in.Mint, in.Maxt = 0, 100
+	used := 0
+	for k := 1 + r.Intn(3); k >= 0; k-- {
+		s := storeIn{Min: 0, Max: 100, Addr: fmt.Sprintf("s%d:10901", k), FilterOK: true}
+		for q := 1 + r.Intn(3); q > 0 && used < len(vals); q-- {
+			s.Exts = append(s.Exts, []lbl{{"cluster", vals[perm[(used*5+k)%len(vals)]]}})
+			used++
+		}
+		if len(s.Exts) == 0 {
+			s.Exts = append(s.Exts, []lbl{{"cluster", vals[r.Intn(len(vals))]}})
+		}
+		for q := 1 + r.Intn(3); q > 0; q-- {
+			e := s.Exts[r.Intn(len(s.Exts))]
+			ls := []lbl{{"__name__", common.Pick(r, "up", "m")}, e[0]}
+			if r.Intn(2) == 0 {
+				ls = append(ls, lbl{common.Pick(r, "a", "b"), common.Pick(r, lvalues...)})
+			}
+			s.Series = append(s.Series, seriesIn{Labels: ls, Times: []int64{common.Between(r, 0, 100)}})
+		}
+		in.Stores = append(in.Stores, s)
+	}
+	return in
+}
+
 // ---- generator ----
 
 var (
@@ -553,6 +667,10 @@ func gen(r *rand.Rand, tier string, n int) []any {
 		var in input
 		if r.Intn(12) == 0 {
 			out = append(out, genSelM(r))
+			continue
+		}
+		if r.Intn(12) == 0 {
+			out = append(out, genSelectorCase(r))
 			continue
 		}
 		if r.Intn(3) == 0 {
